@@ -282,6 +282,14 @@ func (s *Sess) openDB() error {
 	return nil
 }
 
+// ProtectedClose closes the database (panics become errors).
+func (s *Sess) ProtectedClose() error {
+	if s.DB == nil {
+		return nil
+	}
+	return s.protect("Close", func() error { return s.DB.Close() })
+}
+
 // Apply executes one mutating letter on the database and the model. It returns the error of the
 // API call (the caller decides whether an error is a violation).
 func (s *Sess) Apply(o Op) error {
